@@ -396,11 +396,11 @@ func containsInt(xs []int, x int) bool {
 // ---- executor ----
 
 type c7Exec struct {
-	w      *drv.World
-	uuids  map[int]string // scenario index -> uuid of the node DVID created for it
-	roots  map[int]string // repo index -> root uuid
-	before map[string]*c7Repo
-	normB  string
+	w                       *drv.World
+	uuids                   map[int]string // scenario index -> uuid of the node DVID created for it
+	roots                   map[int]string // repo index -> root uuid
+	before                  map[string]*c7Repo
+	normB                   string
 	nRejected, nMergeBranch int
 }
 
